@@ -215,3 +215,34 @@ def call_in_region(f, call, region, drops):
     """a call terminator is 'under the lock' if its block is in the region and the block is not one that
     drops the guard by a drop-terminator (a call block cannot also be a drop block, except mem::drop itself)"""
     return call.bb in region and call.bb not in drops
+
+
+def err_propagated(f, call):
+    """the Result returned by `call` reaches a `?` (Try::branch) whose Break arm can only leave through error returns,
+    or is returned directly"""
+    d = f.derive({call.dst["l"]}, through_calls=True)
+    rets, eb = f.success_returns()
+    for c in f.normal_calls():
+        if (c.static or "") == "std::ops::Try::branch" and op_local(c.args[0]) in d and f.dominates(call.bb, c.bb):
+            res = f.derive({c.dst["l"]}, through_calls=False)
+            for (bb, adt, pl, mm, other) in f.enum_switches("std::ops::ControlFlow"):
+                if pl["l"] in res and "Break" in mm:
+                    reach = f.reachable_from([mm["Break"]], stop=eb)
+                    if not any(r in reach for r in rets):
+                        return True, mm.get("Continue")
+    if 0 in d:
+        return True, None
+    return False, None
+
+
+
+
+def ok_blocks(f):
+    """blocks that build the function's success value `Ok(..)` (into the return place or a local moved there)"""
+    out = []
+    for i in sorted(f.live_blocks()):
+        for st in f.stmts(i):
+            rv = st["r"]
+            if rv.get("k") == "agg" and rv.get("adt") == "std::result::Result" and rv.get("var") == "Ok":
+                out.append(i)
+    return out
